@@ -100,6 +100,10 @@ func c05Leaf(k int, su, ss string, regMode int) (interface{}, interface{}) {
 			return (*regInt)(nil), (*regInt)(nil)
 		}
 		return (*regInt)(nil), blankLeaf{}
+	case 16:
+		// a pointer whose type is a SafeValue: its address is safe text
+		// (same pointer on both sides; used with %p formats)
+		return c05SafePtr, c05SafePtr
 	case 10:
 		// a SafeValue with a String method (its text is safe)
 		return safeStringer(ss), safeStringer(ss)
@@ -110,7 +114,13 @@ func c05Leaf(k int, su, ss string, regMode int) (interface{}, interface{}) {
 	panic("c05Leaf")
 }
 
-var c05Formats = []string{"x‹%v y%v|%v", "%5v|%-7v|%05v", "%6v %v %-3v|", "%.1v %v %+v", "%v%v%v"}
+var c05Formats = []string{"x‹%v y%v|%v", "%5v|%-7v|%05v", "%6v %v %-3v|", "%.1v %v %+v", "%v%v%v", "%p|%v|%v", "%20p|%v %v", "%[1]p %[2]v %[3]v"}
+
+type safePtrT struct{ a int }
+
+func (*safePtrT) SafeValue() {}
+
+var c05SafePtr = &safePtrT{1}
 
 // H_c05: exactly the unsafe arguments are enveloped.
 // p = [leaf1, leaf2, leaf3, shape, format, n, registry (0 empty, 1 regInt, 2 *regInt), prelude]
@@ -132,12 +142,28 @@ func H_c05(p []int) {
 			vAssume(ssb[k] != '\n')
 		}
 	}
+	if len(p) > 7 && p[7] >= 100 {
+		// the same operands printed once BEFORE the registration: a
+		// classification remembered per type must not survive it
+		var pa []interface{}
+		for k := 0; k < 3; k++ {
+			r, _ := c05Leaf(p[k], "x", "y", 0)
+			pa = append(pa, r)
+		}
+		_ = redact.Sprint(pa...)
+		_ = redact.Sprintf("%v %v", pa[0], []interface{}{pa[1], pa[2]})
+		// ... and alone, the first operand last (what a printer saw last is
+		// what the next call on it starts with)
+		_ = redact.Sprint(pa[2])
+		_ = redact.Sprint(pa[1])
+		_ = redact.Sprint(pa[0])
+	}
 	if reg == 1 {
 		redact.RegisterSafeType(reflect.TypeOf(regInt(0)))
 	} else if reg == 2 {
 		redact.RegisterSafeType(reflect.TypeOf((*regInt)(nil)))
 	}
-	if len(p) > 7 && p[7] > 0 {
+	if len(p) > 7 && p[7] > 0 && p[7] < 100 {
 		c12History(p[7]-1, "h")
 	}
 	var ra, fa []interface{}
@@ -167,7 +193,9 @@ func H_c05(p []int) {
 		out = []byte(redact.Sprint(ra...))
 		want = fmt.Sprint(fa...)
 	}
-	vObserve("out", out)
+	if p[0] != 16 {
+		vObserve("out", out) // (addresses differ between the engine and the native build)
+	}
 	wf, _ := wfls(out)
 	vAssert(wf, "C05/wf")
 	if wf {
